@@ -8,7 +8,7 @@ out=${1:-/tmp/validate_seeds.txt}
 : > "$out"
 ls -d seeded/*/ | xargs -P 4 -I{} bash -c '
   d={}; name=$(basename $d)
-  prop=$(python3 -c "import json;print(json.load(open(\"$d/meta.json\"))[\"breaks\"])")
+  prop=$(python3 -c "import json;d=json.load(open(\"$d/meta.json\"));print(d.get(\"detected_by\", d[\"breaks\"]))")
   if grep -q "\"base_commit\"" $d/meta.json; then echo "$name SUPERSEDED (applies to an earlier /repo commit only, see meta.json)" >> '"$out"'; exit 0; fi
   r=$(/verif/scripts/try_mutant.sh $d/patch.diff $prop 2>&1 | grep -E "DETECTED|MISSED|PATCH|BUILD" | cut -c1-160)
   echo "$name $r" >> '"$out"'
